@@ -68,6 +68,11 @@ def Succs (D : Int → Prop) : List Int → Prop
 /-- the float quotient is the mathematical floor -/
 def ExactDiv (P : Params) : Prop := ∀ a per : Int, 0 < per → P.fdiv a per = a / per
 
+/-- nothing is assumed about floats unless the (pre-fix) float tick computation is switched on -/
+def FloatOK (F : TFlags) (P : Params) : Prop := F.floatTick = true → ExactDiv P
+
+theorem FloatOK_current (P : Params) : FloatOK TFlags.current P := fun h => by simp [TFlags.current] at h
+
 /-- `croniter.get_next` moves strictly forward -/
 def CronForward (P : Params) : Prop := ∀ id t, t < P.cronNext id t
 
